@@ -276,12 +276,21 @@ func observe(ctx context.Context, c *Case, pi Pi) map[string]string {
 		}
 		// type filter (the CHANGELOG records nondeterministic import ordering with --type)
 		if len(c.Types) > 0 {
-			fimg, err := bufimageutil.FilterImage(img, bufimageutil.WithIncludeTypes(permuted(c.Types, pi.ArgSeed)...))
-			if err != nil {
-				out["filter"] = "error: " + err.Error()
-			} else if data, err := wire(fimg); err == nil {
-				out["filter"] = string(data)
-			}
+			func() {
+				// a crash of the filter is an outcome like any other here (whether it may crash is C12's subject):
+				// what matters is that the outcome is the same under every schedule and order
+				defer func() {
+					if p := recover(); p != nil {
+						out["filter"] = fmt.Sprintf("panic: %v", p)
+					}
+				}()
+				fimg, err := bufimageutil.FilterImage(img, bufimageutil.WithIncludeTypes(permuted(c.Types, pi.ArgSeed)...))
+				if err != nil {
+					out["filter"] = "error: " + err.Error()
+				} else if data, err := wire(fimg); err == nil {
+					out["filter"] = string(data)
+				}
+			}()
 		}
 	})
 	return out
